@@ -7,6 +7,8 @@
 package main
 
 import (
+	"path/filepath"
+	"reflect"
 	"sync"
 	"time"
 	"crypto/ed25519"
@@ -104,6 +106,7 @@ type input struct {
 	Payload json.RawMessage `json:"payload,omitempty"` // roundtrip: the metadata that was dumped
 	IsLink  bool            `json:"is_link,omitempty"`
 	Sigs    []intoto.Signature `json:"sigs,omitempty"`
+	IO      *ioSpec         `json:"io,omitempty"`      // io: a path that is not a readable file / cannot be written
 	Sized   *sizedSpec      `json:"sized,omitempty"`   // sized: how to rebuild a signed document of an exact size
 	Large   *largeSpec      `json:"large,omitempty"`   // large: how to rebuild the (megabytes of) metadata
 	Pad     int             `json:"pad,omitempty"`     // padded: Text + Pad blanks + Junk is the file
@@ -449,6 +452,135 @@ func largeCase(sp largeSpec) lib.Case {
 		Input: lib.MustJSON(in), Impl: impl, Oracle: oracle}
 }
 
+// ---------- I/O level: things that are not files, paths that cannot be written ----------
+// Outside the JSON model (oracle-only cases): a loader given something it cannot read must return an error and
+// must not claim a loaded object; a Dump that cannot write must return an error.
+
+type ioSpec struct {
+	Op      string `json:"op"`      // load | dump
+	Variant string `json:"variant"` // what the path is
+	Wrapper string `json:"wrapper,omitempty"`
+}
+
+var loadVariants = []string{"nonexistent", "directory", "empty-file", "blank-file", "dangling-symlink", "symlink-to-directory", "below-a-file"}
+var dumpVariants = []string{"nonexistent-directory", "is-a-directory", "below-a-file", "writable"}
+
+func ioPath(variant string) string {
+	base := tmpFile("io-" + variant)
+	os.RemoveAll(base)
+	os.MkdirAll(base, 0755)
+	switch variant {
+	case "nonexistent":
+		return filepath.Join(base, "missing.link")
+	case "directory", "is-a-directory":
+		p := filepath.Join(base, "dir.link")
+		os.Mkdir(p, 0755)
+		return p
+	case "empty-file":
+		p := filepath.Join(base, "empty.link")
+		os.WriteFile(p, nil, 0644)
+		return p
+	case "blank-file":
+		p := filepath.Join(base, "blank.link")
+		os.WriteFile(p, []byte(" \n\t \r\n  "), 0644)
+		return p
+	case "dangling-symlink":
+		p := filepath.Join(base, "dangling.link")
+		os.Symlink(filepath.Join(base, "nowhere"), p)
+		return p
+	case "symlink-to-directory":
+		os.Mkdir(filepath.Join(base, "d"), 0755)
+		p := filepath.Join(base, "todir.link")
+		os.Symlink(filepath.Join(base, "d"), p)
+		return p
+	case "below-a-file":
+		f := filepath.Join(base, "plain")
+		os.WriteFile(f, []byte("x"), 0644)
+		return filepath.Join(f, "sub.link")
+	case "nonexistent-directory":
+		return filepath.Join(base, "no", "such", "dir", "out.link")
+	case "writable":
+		return filepath.Join(base, "out.link")
+	}
+	panic("ioPath " + variant)
+}
+
+func runIO(sp ioSpec) (impl, oracle string) {
+	path := ioPath(sp.Variant)
+	if sp.Op == "load" {
+		lm := lib.Recover(func() string {
+			md, err := intoto.LoadMetadata(path)
+			if err != nil {
+				if md != nil && !reflect.ValueOf(md).IsNil() {
+					return "ERR-but-returns-an-object"
+				}
+				return "ERR"
+			}
+			return "OK(" + fmt.Sprintf("%T", md) + ")"
+		})
+		ml := lib.Recover(func() string {
+			var mb intoto.Metablock
+			err := mb.Load(path)
+			state := "object-untouched"
+			if mb.Signed != nil || mb.Signatures != nil {
+				state = "object-half-filled"
+			}
+			if err != nil {
+				return "ERR," + state
+			}
+			return "OK," + state
+		})
+		return "LoadMetadata=" + lm + "|Metablock.Load=" + ml, "LoadMetadata=ERR|Metablock.Load=ERR,object-untouched"
+	}
+	link := intoto.Link{Type: "link", Name: "io", Materials: map[string]intoto.HashObj{}, Products: map[string]intoto.HashObj{"a": {"sha256": "00ff"}},
+		ByProducts: map[string]interface{}{}, Command: []string{}, Environment: map[string]interface{}{}}
+	res := lib.Recover(func() string {
+		var err error
+		if sp.Wrapper == "L" {
+			mb := intoto.Metablock{Signed: link}
+			err = mb.Dump(path)
+		} else {
+			env := &intoto.Envelope{}
+			if e := env.SetPayload(link); e != nil {
+				return "SETPAYLOAD-ERR"
+			}
+			err = env.Dump(path)
+		}
+		if err != nil {
+			return "Dump=ERR"
+		}
+		md, lerr := intoto.LoadMetadata(path)
+		if lerr != nil {
+			return "Dump=OK,file-does-not-load"
+		}
+		pl, _, _ := contentOfMd(md)
+		if showPayload(pl) != showPayload(link) {
+			return "Dump=OK,file-loads-to-other-content"
+		}
+		return "Dump=OK,file-loads-back"
+	})
+	if sp.Variant == "writable" {
+		return res, "Dump=OK,file-loads-back"
+	}
+	return res, "Dump=ERR"
+}
+
+func ioCase(sp ioSpec) lib.Case {
+	impl, oracle := runIO(sp)
+	klass := "load-not-a-file"
+	desc := "LoadMetadata and Metablock.Load on a path that is: " + sp.Variant
+	if sp.Op == "dump" {
+		wn := map[string]string{"L": "Metablock.Dump", "D": "Envelope.Dump"}[sp.Wrapper]
+		klass = "dump-unwritable-" + map[string]string{"L": "metablock", "D": "envelope"}[sp.Wrapper]
+		desc = wn + " to a path that is: " + sp.Variant
+		if sp.Variant == "writable" {
+			klass = "dump-writable"
+		}
+	}
+	in := input{Kind: "io", IO: &sp, Wrapper: sp.Wrapper, Desc: desc}
+	return lib.Case{Klass: klass, Input: lib.MustJSON(in), Impl: impl, Oracle: oracle}
+}
+
 // ---------- signed documents of an exact size ----------
 // Well-formed metadata files whose size sits around the powers of two that buffered or limited readers like.
 // The content is sized with a filler of plain ASCII (one byte per character in the file; four bytes per three
@@ -757,6 +889,15 @@ func gen(out string, n int) {
 		sp.Seed = rr.U64()
 		w.Put(largeCase(sp))
 	}
+	// I/O level: unreadable paths for the loaders, unwritable paths for the writers (and the writable twin)
+	for _, v := range loadVariants {
+		w.Put(ioCase(ioSpec{Op: "load", Variant: v}))
+	}
+	for _, v := range dumpVariants {
+		for _, wr := range []string{"L", "D"} {
+			w.Put(ioCase(ioSpec{Op: "dump", Variant: v, Wrapper: wr}))
+		}
+	}
 	// signed well-formed files of sizes around powers of two, one case per size, both wrappers
 	{
 		const MiB = 1 << 20
@@ -902,6 +1043,9 @@ func main() {
 			lm, ml := runLoaders(in.Text)
 			fmt.Println("impl LoadMetadata:   " + lm)
 			fmt.Println("impl Metablock.Load: " + ml)
+		case "io":
+			impl, oracle := runIO(*in.IO)
+			fmt.Printf("impl:   %s\noracle: %s\n", impl, oracle)
 		case "sized":
 			impl, oracle, size := runSized(*in.Sized)
 			fmt.Printf("dumped file: %d bytes\nimpl (LoadMetadata|Metablock.Load|signature): %s\noracle:                                       %s\n", size, impl, oracle)
